@@ -277,4 +277,33 @@ def dfaBisimVerdict (fuel : Nat) (A B : Dfa) : Verdict :=
     else if dfaBisimWith A B c then .equiv c.pairs.size c.reps.length
     else .unknown "certificate-rejected"
 
+/-! ## Output determinism of an expression (untrusted search, used for the refusal verdict) -/
+
+/-- `Regex::to_automaton` refuses ("non output-deterministic language") an expression iff, after
+some common prefix, the same byte can continue towards accepted words with two different
+markers. Decided here on the derivative automaton: `some true` = deterministic,
+`some false` = a conflict exists, `none` = budget exceeded. -/
+def detCheck (fuel : Nat) (r : Rx) : Option Bool :=
+  let ms := dedupNat (0 :: Rx.markersOf r)
+  let ss := Rx.singles r
+  let (_, reps) := mkReps (fun b => sigRx ss ms b)
+  let letters := (reps.flatMap (fun b => ms.map (fun m => (b, m)))).toArray
+  let r0 := Rx.norm r
+  let e := explore rxMachine rxMachine (fun t => t.size > 20000) r0 r0 letters fuel
+  if !e.complete then none else
+  let n := e.pairs.size
+  let live0 : Array Bool := e.pairs.map (fun p => p.2.nullable)
+  let stepLive (live : Array Bool) : Array Bool :=
+    (Array.range n).map (fun i => live.getD i false ||
+      ((e.succ.getD i #[]).any (fun k => live.getD k false)))
+  let live := (List.range n).foldl (fun l _ => stepLive l) live0
+  let nm := ms.length
+  let conflict := (List.range n).any (fun i =>
+    live.getD i false &&
+    (List.range reps.length).any (fun bi =>
+      let liveMs := (List.range nm).filter (fun mi =>
+        live.getD ((e.succ.getD i #[]).getD (bi * nm + mi) n) false)
+      liveMs.length ≥ 2))
+  some (!conflict)
+
 end MidnightZK.C19
